@@ -26,6 +26,7 @@ EXPLANATION = (
     ' Round 7: (14) SIB: event-name words the decoder can put behind modifier words (mouse, meta) are looked for by containment; (15) the coordinates of an X10 mouse report are taken modulo 256.'
     ' (16) PAIR: hook_event_loop() re-arms the completion timeout for bytes still pending after unhook_event_loop() removed the alarm; (17) FLOW: what woke the complete_wait wait (terminal or resize pipe) takes part in the wait_for_more flag of the parse after it (fix 4d24c54).'
     ' Round 8: (17) tightened: the wake-up list may only be compared with the resize descriptor, never used as a truth value (end of file keeps the terminal readable); (18) TAB: in the folded key table modifier words occur once each in the order shift meta ctrl, and the xterm modifier digit d names the bits of d - 1.'
+    ' Round-8 triage: (19) SENTINEL: an attribute holding an event-loop alarm handle is compared with None by identity (fix 2843810).'
 )
 NOT_DECIDED = (
     "That event names/coordinates are the documented ones for every sequence; equality of event lists under all cuts for value-dependent recognisers "
